@@ -1088,6 +1088,8 @@ class Gen:
         lo, hi = loc["body_open"], loc["body_close"]
         sig = src[loc["start"]:lo]
         sig_text = clean_signature(sig, enabled, self.log, rel, fn_line)
+        # restricted visibilities (pub(crate), pub(super), pub(in ..)) are meaningless in the single file
+        sig_text = re.sub(r"\bpub\s*\([^)]*\)\s*", "", sig_text)
         if "vis" in kv:
             sig_text = re.sub(r"^\s*pub(\([^)]*\))?\s*", "", sig_text)
             sig_text = (kv["vis"] + " " if kv["vis"] else "") + sig_text
